@@ -19,22 +19,30 @@ structure Codec where
   dec_enc : ∀ e, dec (enc e) = some e
   small : ∀ e, (enc e).length < 10 ^ 9
 
-/-- The target zones of an event in the harness topology: one zone per directly related endpoint
-    (`targets`), the local zone being the one of peer 0. -/
-def zonesOf (sec : Option Nat) : List (Bool × List Nat) := (targets sec).map (fun p => (p == 0, [p]))
+/-- `Zone::GetEndpoints()` is a `std::set` of pointers: in which order the two endpoints of zone sat (B, D) and of zone
+    top (E, F) are visited is not determined by the configuration.  `true` = the second one first. -/
+def orient (satRev topRev : Bool) (l : List Nat) : List Nat :=
+  if l == [1, 3] && satRev then [3, 1] else if l == [4, 5] && topRev then [5, 4] else l
+
+/-- The target zones of an event (`targetZones`) with their endpoints in iteration order. -/
+def zonesOf (satRev topRev : Bool) (sec : Option Nat) : List (Bool × List Nat) :=
+  (targetZones sec).map (fun z => (z.1, orient satRev topRev z.2))
 
 structure Node where
   snd : Sender
-  peers : Nat → Peer          -- 0 = A, 1 = B, 2 = C
+  peers : Nat → Peer          -- 0 = A, 1 = B, 2 = C, 3 = D, 4 = E, 5 = F
   paFirst : Bool              -- peer A's name sorts before the local one: A is the zone master while connected
+  satRev : Bool := false      -- iteration order of zone sat's / zone top's endpoints (see `orient`)
+  topRev : Bool := false
 
 def Node.setPeer (n : Node) (i : Nat) (f : Peer → Peer) : Node :=
   { n with peers := fun j => if j = i then f (n.peers j) else n.peers j }
 
 def Node.pos (n : Node) : List Int :=
-  [(n.peers 0).lpos, (n.peers 0).rpos, (n.peers 1).lpos, (n.peers 1).rpos, (n.peers 2).lpos, (n.peers 2).rpos]
+  [(n.peers 0).lpos, (n.peers 0).rpos, (n.peers 1).lpos, (n.peers 1).rpos, (n.peers 2).lpos, (n.peers 2).rpos,
+   (n.peers 3).lpos, (n.peers 3).rpos, (n.peers 4).lpos, (n.peers 4).rpos, (n.peers 5).lpos, (n.peers 5).rpos]
 
-def Node.peerList (n : Node) : List Peer := [n.peers 0, n.peers 1, n.peers 2]
+def Node.peerList (n : Node) : List Peer := [n.peers 0, n.peers 1, n.peers 2, n.peers 3, n.peers 4, n.peers 5]
 
 /-- GetMaster() in the two-endpoint local zone (apilistener.cpp:393-410). -/
 def Node.master (n : Node) : Option Nat := if n.paFirst && (n.peers 0).connected then some 0 else none
@@ -55,7 +63,8 @@ inductive Op
   | timer (now : Int)
   | ack (p : Nat) (v : Int)
   | recv (p : Nat) (ts : Int)
-  | crashStart (now : Int)        -- the process dies (every byte written so far is on disk), a new one starts at `now`
+  | crashStart (now : Int) (satRev topRev : Bool)   -- the process dies (every byte written so far is on disk), a new one starts at
+                                                    -- `now`; its std::set orders of the two-endpoint zones are whatever they are
   deriving Repr
 
 def outObs (o : List Out) : List OutObs := o.map fun | .msg e => .m e.id e.ts | .setPos v => .l v
@@ -63,7 +72,7 @@ def outObs (o : List Out) : List OutObs := o.map fun | .msg e => .m e.id e.ts | 
 /-- One operation: the next node state and what an observer sees (the same events the driver feeds to the spec). -/
 def stepOp (c : Codec) (limit : Nat) (n : Node) : Op → Node × List Step
   | .relay now id sec =>
-    let r := relay n.peers n.master (zonesOf sec)
+    let r := relay n.peers n.master (zonesOf n.satRev n.topRev sec)
     let n1 : Node := { n with peers := fun i => if r.skipped.contains i then { n.peers i with lpos := now } else n.peers i }
     let e : Entry := ⟨now, id, sec⟩
     let snd2 := if r.needLog then persist limit now (c.enc e) now n.snd else n.snd
@@ -98,9 +107,9 @@ def stepOp (c : Codec) (limit : Nat) (n : Node) : Op → Node × List Step
     let r := recv (n.peers p).rpos (some ts)
     let n' := n.setPeer p (fun q => { q with rpos := r.2 })
     (n', [⟨.recv p ts r.1, n'.pos⟩])
-  | .crashStart now =>
+  | .crashStart now sr tr =>
     let len := match n.snd.current with | some b => b.length | none => 0
-    let n' : Node := { n with snd := start now (crash len n.snd),
+    let n' : Node := { n with snd := start now (crash len n.snd), satRev := sr, topRev := tr,
                               peers := fun i => { n.peers i with connected := false, syncing := false } }
     (n', [⟨.damage ⟨none, len, false⟩, n'.pos⟩, ⟨.restart, n'.pos⟩])
 
@@ -108,22 +117,23 @@ def runModel (c : Codec) (limit : Nat) : Node → List Op → List Step
   | _, [] => []
   | n, op :: r => (stepOp c limit n op).2 ++ runModel c limit (stepOp c limit n op).1 r
 
-/-- A fresh node: empty directory, log opened at `t0`, nobody connected, positions 0. -/
-def initNode (t0 : Int) (paFirst : Bool) (dA dB dC : Int) : Node :=
-  { snd := start t0 {}, paFirst := paFirst,
-    peers := fun i => if i = 0 then { related := true, dur := dA, lpos := 0 }
-                      else if i = 1 then { related := true, dur := dB, lpos := 0 }
-                      else { related := false, dur := dC, lpos := 0 } }
+/-- A fresh node: empty directory, log opened at `t0`, nobody connected, positions 0; `durs p` = log_duration of peer p. -/
+def initNode (t0 : Int) (paFirst satRev topRev : Bool) (durs : Nat → Int) : Node :=
+  { snd := start t0 {}, paFirst := paFirst, satRev := satRev, topRev := topRev,
+    peers := fun i => { related := related i, dur := durs i, lpos := 0 } }
+
+/-- The log_durations as the spec's list. -/
+def dursList (durs : Nat → Int) : List Int := [durs 0, durs 1, durs 2, durs 3, durs 4, durs 5]
 
 /-- The virtual clock: which time an operation happens at (operations without a time take none). -/
 def Op.time : Op → Option Int
   | .relay now _ _ => some now | .replay now _ => some now | .rotate now => some now
-  | .timer now => some now | .crashStart now => some now | _ => none
+  | .timer now => some now | .crashStart now _ _ => some now | _ => none
 
 def Op.peerOk : Op → Bool
-  | .conn p => p < 3 | .disc p => p < 3 | .replay _ p => p < 3 | .ack p _ => p < 3 | .recv p _ => p < 3 | _ => true
+  | .conn p => p < 6 | .disc p => p < 6 | .replay _ p => p < 6 | .ack p _ => p < 6 | .recv p _ => p < 6 | _ => true
 
-/-- Every timed operation happens strictly after the previous one (≥ 1 µs per event), peers are A, B or C. -/
+/-- Every timed operation happens strictly after the previous one (≥ 1 µs per event), peers are 0..5. -/
 def ClockOK : Int → List Op → Prop
   | _, [] => True
   | t, op :: r => op.peerOk = true ∧
